@@ -224,14 +224,14 @@ func init() {
 	register(&Prop{
 		ID:    "C13",
 		Level: "model_checking",
-		Rule: "bounded-exhaustive differential between two modes of the real code: for `snps`, `variants` (GenBank and GFF3, reference record at the first/middle/last position of the alignment) and `sam variants`, every alignment of 1..4 sequences (thorough 5 for snps) drawn with repetition from a 6-row menu (shared and private mutations, the same amino-acid change through two codons, a deletion, an insertion in SAM form) x --append-snps x every threshold in {0, 1, each occurring frequency as the same float64 quotient and its two neighbouring floats, midpoints}; plus the counting layer: n = 1..60 sequences of which k = 1..n carry a mutation, thresholds k/n and its neighbours. " +
+		Rule: "bounded-exhaustive differential between two modes of the real code: for `snps`, `variants` (GenBank and GFF3, reference record at the first/middle/last position of the alignment, or twice) and `sam variants`, every alignment of 1..4 sequences (thorough 5) drawn with repetition from a 6-row menu (shared and private mutations, the same amino-acid change through two codons, a deletion, an insertion in SAM form) x --append-snps x every threshold in {0, 1, each occurring frequency as the same float64 quotient and its two neighbouring floats, midpoints}; plus the counting layer: n = 1..60 (thorough 120) sequences of which k = 1..n carry a mutation, thresholds k/n and its neighbours. " +
 			"The --aggregate output must list exactly the mutations of the per-sequence output with count/N >= threshold, each once, frequency to 9 decimals, positions non-decreasing. A case is one (alignment, options, threshold); non-trivial = at least one mutation; each generated once",
 		Assumptions: []string{
 			"oracle = the real per-sequence mode on the same input (C03-C05 judge that mode against models)",
 			"order among records at equal positions is not judged (C12)",
 		},
 		Bounds: func(tier string) map[string]interface{} {
-			return map[string]interface{}{"menu_rows": 6, "max_sequences": 4, "counting_layer_max_n": 60}
+			return map[string]interface{}{"menu_rows": 6, "max_sequences": map[string]int{"quick": 4, "thorough": 5}[tier], "counting_layer_max_n": map[string]int{"quick": 60, "thorough": 120}[tier]}
 		},
 		Plan: func(tier string) ([]string, *engine.JobResult) {
 			var jobs []string
@@ -305,7 +305,7 @@ func init() {
 				var s, n int
 				fmt.Sscanf(p[2], "%d/%d", &s, &n)
 				maxLen := 4
-				if tier == "thorough" && p[1] == "snps" {
+				if tier == "thorough" {
 					maxLen = 5
 				}
 				nv := map[string]int{"snps": 2, "variants": 24, "samvariants": 4}[p[1]]
@@ -341,7 +341,11 @@ func init() {
 			case "count":
 				var s, n int
 				fmt.Sscanf(p[1], "%d/%d", &s, &n)
-				for N := 1; N <= 60; N++ {
+				maxN := 60
+				if tier == "thorough" {
+					maxN = 120
+				}
+				for N := 1; N <= maxN; N++ {
 					if N%n != s {
 						continue
 					}
